@@ -1,11 +1,178 @@
 import SamplyModel.Model.Converter
 /-!
 Flush of the buffered samples into the profile (`Processes::finish`,
-`ProcessSampleData::flush_samples_to_profile`), stack conversion (`stack_converter.rs`, first and second
-pass; no libart / JS frames) and the stack-depth limiter (`stack_depth_limiting_frame_iter.rs`).
-The output abstraction `views` lists every thread entry with its identity, names, lifetimes and samples.
+`ProcessSampleData::flush_samples_to_profile`), the perf-map loader (`shared/perf_map.rs`), the JIT symbol
+classification (`shared/jit_category_manager.rs`), the mapping hierarchy (`shared/lib_mappings.rs`), stack
+conversion (`stack_converter.rs`: first pass, second pass, the label-prepending `ConvertedStackIterD`; no
+libart filtering — no mapping carries `art_info` here) and the stack-depth limiter
+(`stack_depth_limiting_frame_iter.rs`).
+The output abstraction `views` lists every thread entry with its identity, names, lifetimes and samples;
+`cpuViews` lists the entries of the "CPU" process of `--per-cpu-threads`.
 -/
 namespace Conv
+
+/-! ## Text helpers (names are `List Char`: the string functions used by the code, on characters) -/
+
+/-- `str::strip_prefix` -/
+def stripPrefix : List Char → List Char → Option (List Char)
+  | [], s => some s
+  | _ :: _, [] => none
+  | p :: ps, c :: cs => if p = c then stripPrefix ps cs else none
+
+def startsWith (p s : List Char) : Bool := (stripPrefix p s).isSome
+
+/-- `str::split_once(pat)`: around the first occurrence of `pat` -/
+def splitOnce (pat : List Char) : List Char → Option (List Char × List Char)
+  | [] => if pat.isEmpty then some ([], []) else none
+  | c :: cs =>
+    match stripPrefix pat (c :: cs) with
+    | some rest => some ([], rest)
+    | none => (splitOnce pat cs).map (fun r => (c :: r.1, r.2))
+
+def containsStr (pat s : List Char) : Bool := (splitOnce pat s).isSome
+
+/-- `str::ends_with` -/
+def endsWith (suf s : List Char) : Bool := startsWith suf.reverse s.reverse
+
+/-- `str::strip_suffix` -/
+def stripSuffix (suf s : List Char) : Option (List Char) := (stripPrefix suf.reverse s.reverse).map List.reverse
+
+/-- `str::rsplit_once(c)`: around the last occurrence of the character -/
+def rsplitOnceChar (c : Char) (s : List Char) : Option (List Char × List Char) :=
+  (splitOnce [c] s.reverse).map (fun r => (r.2.reverse, r.1.reverse))
+
+/-! ## JIT symbol classification (`JitCategoryManager::classify_jit_symbol`; categories are not observed) -/
+
+/-- `handle_for_js_name` (jit_category_manager.rs:299-328) -/
+def jsNameOf (f : List Char) : JsName :=
+  let plain : JsName :=
+    if containsStr "(self-hosted:".toList f || endsWith "valueIsFalsey".toList f || endsWith "valueIsTruthy".toList f
+    then .selfHosted (String.ofList f) else .nonSelfHosted (String.ofList f)
+  match (splitOnce "[Call".toList f).orElse (fun _ => splitOnce "[Construct".toList f) with
+  | some (before, after) =>
+    match splitOnce [']'] after with
+    | some (_, after2) =>
+      if after2.isEmpty then .selfHosted (String.ofList before) else .nonSelfHosted (String.ofList (before ++ after2))
+    | none => plain
+  | none => plain
+
+/-- `JitCategoryManager::CATEGORIES`: (prefix, is_js), in table order -/
+def jitPrefixes : List (String × Bool) :=
+  [("JS:~", true), ("Script:~", true), ("JS:^", true), ("JS:+", true), ("JS:*", true), ("JS:?", true),
+   ("py::", true), ("Builtin:", false), ("BytecodeHandler:", false), ("Interpreter: ", true),
+   ("BaselineThunk: ", false), ("Baseline: ", true), ("PolymorphicCallStubBaseline: ", true),
+   ("PolymorphicAccessStubBaseline: ", true), ("Ion: ", true), ("Wasm: ", true), ("BaselineIC: ", false),
+   ("IC: ", false), ("Trampoline: ", false), ("WasmTrampoline: ", false), ("VMWrapper: ", false),
+   ("Baseline JIT code for ", true), ("DFG JIT code for DFG: ", true), ("FTL B3 code for FTL: ", true),
+   ("LLInt: ", true)]
+
+/-- the table loop (jit_category_manager.rs:243-260): the first prefix that matches decides -/
+def classifyTable (name : List Char) : List (String × Bool) → Option (Option JsFrame)
+  | [] => none
+  | (pre, isJs) :: rest =>
+    match stripPrefix pre.toList name with
+    | some without => some (if isJs then some (.regular (jsNameOf without)) else none)
+    | none => classifyTable name rest
+
+/-- the V8 wasm names `JS:<name>-<index>-liftoff|-turbofan` (jit_category_manager.rs:262-287) -/
+def classifyWasm (name : List Char) : Option JsFrame :=
+  match stripPrefix "JS:".toList name with
+  | none => none
+  | some v8 =>
+    let stripped := match stripSuffix "-liftoff".toList v8 with
+      | some n => some n
+      | none => stripSuffix "-turbofan".toList v8
+    match stripped with
+    | none => none
+    | some withIndex =>
+      match rsplitOnceChar '-' withIndex with
+      | some (nm, idx) => some (.regular (jsNameOf (nm ++ " (WASM:".toList ++ idx ++ [')'])))
+      | none => none
+
+/-- `classify_jit_symbol`, the `Option<JsFrame>` component -/
+def classify (name : List Char) : Option JsFrame :=
+  if name = "BaselineInterpreter".toList || startsWith "BlinterpOp: ".toList name then some .baselineInterp else
+  match stripPrefix "BaselineInterpreter: ".toList name with
+  | some f => some (.stub (jsNameOf f))
+  | none =>
+    match stripPrefix "IonIC: ".toList name with
+    | some rest =>
+      match splitOnce " : ".toList rest with
+      | some (_, f) => some (.regular (jsNameOf f))
+      | none => none
+    | none =>
+      match classifyTable name jitPrefixes with
+      | some r => r
+      | none => classifyWasm name
+
+/-! ## Perf map loader (`try_load_perf_map`) -/
+
+def hexVal (c : Char) : Option Nat :=
+  if '0' ≤ c ∧ c ≤ '9' then some (c.toNat - '0'.toNat)
+  else if 'a' ≤ c ∧ c ≤ 'f' then some (c.toNat - 'a'.toNat + 10)
+  else if 'A' ≤ c ∧ c ≤ 'F' then some (c.toNat - 'A'.toNat + 10)
+  else none
+
+/-- `trim_start_matches("0x")`: strips the pattern repeatedly -/
+def trim0x : List Char → List Char
+  | '0' :: 'x' :: rest => trim0x rest
+  | s => s
+
+/-- `u64::from_str_radix(s, 16)`: one optional leading `+`, at least one digit, no overflow -/
+def parseHexU64 (s : List Char) : Option Nat :=
+  let digits := match s with
+    | '+' :: rest => rest
+    | _ => s
+  if digits.isEmpty then none else
+  (digits.foldl (fun acc c => match acc, hexVal c with
+    | some v, some d => if v * 16 + d < 2 ^ 64 then some (v * 16 + d) else none
+    | _, _ => none) (some 0))
+
+structure PmLine where
+  addr : Nat
+  len : Nat
+  name : List Char
+deriving Repr, DecidableEq
+
+/-- `process_perf_map_line`: `splitn(3, ' ')`, non-empty name, hexadecimal address and length -/
+def parsePmLine (line : List Char) : Option PmLine :=
+  match splitOnce [' '] line with
+  | none => none
+  | some (a, rest) =>
+    match splitOnce [' '] rest with
+    | none => none
+    | some (l, name) =>
+      if name.isEmpty then none else
+      match parseHexU64 (trim0x a), parseHexU64 (trim0x l) with
+      | some addr, some len => some ⟨addr, len, name⟩
+      | _, _ => none
+
+def perfMapPath (pid : Nat) : String := "/tmp/perf-" ++ toString pid ++ ".map"
+
+/-- the loop of `try_load_perf_map` over the parsed lines: `none` = an arithmetic panic of the debug build
+(`addr + len` beyond `u64`, `cumulative_address += code_size` beyond `u32`) -/
+def loadPmLines (path : String) : List MapAdd → Nat → List PmLine → Option (List MapAdd)
+  | table, _, [] => some table
+  | table, cum, l :: rest =>
+    if l.addr + l.len ≥ 2 ^ 64 then none else
+    let codeSize := l.len % 2 ^ 32
+    if cum + codeSize ≥ 2 ^ 32 then none else
+    loadPmLines path
+      (applyAdd table { start := l.addr, end_ := l.addr + l.len, rel := cum, lib := path, js := classify l.name })
+      (cum + codeSize) rest
+
+/-- `try_load_perf_map(pid)`: `some none` = no file, `none` = panic, `some (some table)` = the perf-map level of
+the hierarchy -/
+def loadPerfMap (cfg : Config) (pid : Nat) : Option (Option (List MapAdd)) :=
+  match alGet cfg.perfMaps pid with
+  | none => some none
+  | some lines => (loadPmLines (perfMapPath pid) [] 0 (lines.filterMap parsePmLine)).map some
+
+/-- the perf-map table used by the flush of a buffer of `pid` (empty when there is no file) -/
+def perfMapTable (cfg : Config) (pid : Nat) : List MapAdd :=
+  match loadPerfMap cfg pid with
+  | some (some t) => t
+  | _ => []
 
 /-! ## Stack conversion -/
 
@@ -16,6 +183,10 @@ inductive Frame
   | raw (addr : Nat)
   /-- the placeholder label frame "(<n> frames elided)" -/
   | elided (count : Nat)
+  /-- a prepended JS label frame (`handle_for_frame_with_label(.., js_name, .., IS_JS)`) -/
+  | label (name : String)
+  /-- the thread label frame of a per-CPU copy of a sample (`extra_label_frame`) -/
+  | tlabel (name : String)
 deriving Repr, DecidableEq
 
 /-- first pass: lookup address of a frame (`ReturnAddress ↦ saturating a − 1`) -/
@@ -27,17 +198,57 @@ def SFrame.kernel : SFrame → Bool
   | .ip _ k => k
   | .ret _ k => k
 
-/-- second pass: user-mode frames through the mapping table, kernel-mode frames raw -/
-def convertFrame (maps : List MapAdd) (f : SFrame) : Frame :=
-  let la := f.lookupAddr
-  if f.kernel then .raw la else
-  match lookupMap maps la with
-  | some m => .lib m.lib (m.rel + (la - m.start))
-  | none => .raw la
+/-- `LibMappingsHierarchy::convert_address`: regular libraries first, then (no jitdumps here) the perf map -/
+def lookupH (maps pm : List MapAdd) (a : Nat) : Option MapAdd :=
+  match lookupMap maps a with
+  | some m => some m
+  | none => lookupMap pm a
 
-/-- `convert_stack`: input callee-first, output root-first -/
-def convertStack (maps : List MapAdd) (stack : List SFrame) : List Frame :=
-  stack.reverse.map (convertFrame maps)
+/-- `SecondPassFrameInfo`: location and `js_frame` -/
+structure Info where
+  frame : Frame
+  js : Option JsFrame := none
+deriving Repr, DecidableEq
+
+/-- second pass: user-mode frames through the mapping hierarchy, kernel-mode frames raw -/
+def secondPass (maps pm : List MapAdd) (f : SFrame) : Info :=
+  let la := f.lookupAddr
+  if f.kernel then { frame := .raw la } else
+  match lookupH maps pm la with
+  | some m => { frame := .lib m.lib (m.rel + (la - m.start)), js := m.js }
+  | none => { frame := .raw la }
+
+/-- the frame of the second pass without the perf-map level (the regular-library attribution of C02) -/
+def convertFrame (maps : List MapAdd) (f : SFrame) : Frame := (secondPass maps [] f).frame
+
+/-- the `match js_frame` of `ConvertedStackIterD::next` (stack_converter.rs:215-233): from the state
+`js_name_for_baseline_interpreter` and the frame's `js_frame` to (`extra_js_name`, new state) -/
+def jsStep (st : Option JsName) : Option JsFrame → Option JsName × Option JsName
+  | some (.regular n) => (some n, some n)
+  | some (.stub n) => (some n, none)
+  | some .baselineInterp => (st, none)
+  | none => (none, st)
+
+/-- the frames one second-pass frame turns into: the prepended JS label frame (only for a non-self-hosted
+name), then the native frame -/
+def framesOf (extraJsName : Option JsName) (i : Info) : List Frame :=
+  match extraJsName with
+  | some (.nonSelfHosted s) => [Frame.label s, i.frame]
+  | _ => [i.frame]
+
+/-- `ConvertedStackIterD` run to completion (closed form; the iterator with its one-frame look-ahead is
+`Model/DepthIter.lean: csNext`); `st` = `js_name_for_baseline_interpreter` -/
+def emitJs : Option JsName → List Info → List Frame
+  | _, [] => []
+  | st, i :: rest => framesOf (jsStep st i.js).1 i ++ emitJs (jsStep st i.js).2 rest
+
+/-- `convert_stack`: input callee-first, output root-first, `extra` = `extra_first_frame` (it sits in
+`pending_frame_handle` and comes out first) -/
+def convertStackX (extra : Option Frame) (maps pm : List MapAdd) (stack : List SFrame) : List Frame :=
+  extra.toList ++ emitJs none (stack.reverse.map (secondPass maps pm))
+
+def convertStack (maps pm : List MapAdd) (stack : List SFrame) : List Frame :=
+  convertStackX none maps pm stack
 
 /-! ## Depth limiter -/
 
@@ -76,23 +287,55 @@ def processOps (maps : List MapAdd) (q : List (Nat × MapAdd)) (ts : Nat) : List
   | [] => (maps, [])
   | (t, op) :: rest => if t > ts then (maps, q) else processOps (applyAdd maps op) rest ts
 
-/-- one parked / live buffer: returns the (thread entry, sample) pairs in buffer order -/
-def flushBuffer : List MapAdd → List (Nat × MapAdd) → List USample → List (Nat × OutSample)
+/-- one parked / live buffer: returns the (thread entry, sample) pairs in buffer order; `pm` = the perf-map
+level of the hierarchy (never changed by `process_ops`) -/
+def flushBuffer (pm : List MapAdd) : List MapAdd → List (Nat × MapAdd) → List USample → List (Nat × OutSample)
   | _, _, [] => []
   | maps, q, u :: us =>
     let r := processOps maps q u.tmono
-    let frames := convertStack r.1 u.stack
+    let frames := convertStack r.1 pm u.stack
     (u.th, { t := u.t, weight := 1, cpu := u.cpu, frames := depthLimit depthN frames u.stack.length })
-      :: flushBuffer r.1 r.2 us
+      :: flushBuffer pm r.1 r.2 us
 
 /-- all buffers in the order `Processes::finish` flushes them: parked first, then live processes
 (hash-map order in the code; irrelevant for the per-thread projection below up to the order of samples
 of different buffers, which the serializer sorts by time) -/
-def allBuffers (s : St) : List (List USample × List (Nat × MapAdd)) :=
-  s.parked ++ (s.procs.filter (fun p => !p.2.samples.isEmpty)).map (fun p => (p.2.samples, p.2.mapq))
+def allBuffers (s : St) : List (List USample × List (Nat × MapAdd) × Nat) :=
+  s.parked ++ (s.procs.filter (fun p => !p.2.samples.isEmpty)).map (fun p => (p.2.samples, p.2.mapq, p.2.pid))
 
 def flushAll (s : St) : List (Nat × OutSample) :=
-  (allBuffers s).flatMap (fun b => flushBuffer [] b.2 b.1)
+  (allBuffers s).flatMap (fun b => flushBuffer (perfMapTable s.cfg b.2.2) [] b.2.1 b.1)
+
+/-- `try_load_perf_map` runs in `Process::finish` of every process that has buffered samples: the import
+panics iff one of those loads does -/
+def perfMapsSafe (s : St) : Bool :=
+  (allBuffers s).all (fun b => (loadPerfMap s.cfg b.2.2).isSome)
+
+/-! ### `--per-cpu-threads` (converter.rs:327-377, shared/per_cpu.rs)
+
+Every accepted sample is added twice more to the buffer of its process, right after itself: to the thread of
+its CPU and to the combined thread of the "CPU" process, with the same stack, timestamp and weight 1, CPU
+delta 0 (no context-switch data) and the sampled thread's label as extra first frame. The copies follow their
+original in the buffer with the same timestamp, so they are converted against the same mapping tables
+(`processOps` at an unchanged timestamp consumes nothing): the model flushes them in a second pass over the
+buffer. -/
+
+def cpuOf (cfg : Config) (t : Nat) : Nat := t % cfg.ncpu
+
+/-- the per-CPU copies of one buffer: (CPU index, sample) for the CPU thread; the same samples go to the
+combined thread -/
+def flushBufferCpu (cfg : Config) (pm : List MapAdd) :
+    List MapAdd → List (Nat × MapAdd) → List USample → List (Nat × OutSample)
+  | _, _, [] => []
+  | maps, q, u :: us =>
+    let r := processOps maps q u.tmono
+    let frames := convertStackX (some (.tlabel u.tlabel)) r.1 pm u.stack
+    (cpuOf cfg u.tmono, { t := u.t, weight := 1, cpu := 0, frames := depthLimit depthN frames u.stack.length })
+      :: flushBufferCpu cfg pm r.1 r.2 us
+
+def flushAllCpu (s : St) : List (Nat × OutSample) :=
+  if s.cfg.ncpu = 0 then [] else
+  (allBuffers s).flatMap (fun b => flushBufferCpu s.cfg (perfMapTable s.cfg b.2.2) [] b.2.1 b.1)
 
 def idStr (id suffix : Nat) : String :=
   if suffix = 0 then toString id else toString id ++ "." ++ toString suffix
@@ -131,5 +374,25 @@ def viewsAux (s : St) (out : List (Nat × OutSample)) : Nat → List TEntry → 
     | none => viewsAux s out (i + 1) rest
 
 def views (s : St) : List View := viewsAux s (flushAll s) 0 s.tents
+
+/-- the buffered samples in the order the records arrived (buffers are per process; `Cpus::get_mut` only
+depends on the largest CPU index seen so far, which no order changes) -/
+def allSamples (s : St) : List USample := (allBuffers s).flatMap (·.1)
+
+/-- The entries of the "CPU" process (`Cpus::new`: process "CPU", pid 0, with the combined thread tid 0 as
+main thread; `Cpus::get_mut`: threads "CPU i" with tid i for every i up to the largest CPU index that had
+an accepted sample). The second tid 0 (thread "CPU 0") is serialised as "0.1" (`make_unique_pid_or_tid`).
+Not modelled: recorded pids / tids below `ncpu`, which would share the suffix counters with these entries. -/
+def cpuViews (s : St) : List View :=
+  if s.cfg.ncpu = 0 then [] else
+  let out := flushAllCpu s
+  let mk (tid name : String) (isMain : Bool) (samples : List OutSample) : View :=
+    { pid := "0", tid, pidBase := 0, tidBase := 0, isMain, name, processName := "CPU", start := 0, end_ := none,
+      pstart := 0, pend := none, samples }
+  let ncreated := ((allSamples s).map (fun u => cpuOf s.cfg u.tmono + 1)).foldl max 0
+  mk "0" "CPU" true (out.map (·.2)) ::
+    (List.range ncreated).map (fun i =>
+      mk (if i = 0 then "0.1" else toString i) ("CPU " ++ toString i) false
+        ((out.filter (fun o => o.1 == i)).map (·.2)))
 
 end Conv
